@@ -6,8 +6,8 @@ import (
 	"testing/synctest"
 	"time"
 
-	bitcoin_reader "github.com/tokenized/bitcoin_reader"
 	"github.com/google/uuid"
+	bitcoin_reader "github.com/tokenized/bitcoin_reader"
 	"github.com/tokenized/logger"
 	"github.com/tokenized/pkg/bitcoin"
 	"github.com/tokenized/pkg/wire"
@@ -116,6 +116,31 @@ func runC04(c *core.Ctx) {
 	cancelSaysStarted := t.Chance(1, 2)
 	if interruptKind != "none" {
 		c.Fault("download:" + interruptKind)
+	}
+	// (drawn last so that tapes recorded before this variant existed replay unchanged)
+	// merkle malleation in general: when level k of the tree has an odd number of nodes, repeating the
+	// leaves under its last node gives a longer list with the same root; k = 0 is "last tx repeated".
+	if kind == "duplicate-last" && t.Chance(1, 2) {
+		base := stream[:len(stream)-1]
+		var options [][2]int // (level, first leaf of the last node at that level)
+		w, span := len(base), 1
+		for w > 1 {
+			if w%2 == 1 {
+				options = append(options, [2]int{span, (w - 1) * span})
+			}
+			w = (w + 1) / 2
+			span *= 2
+		}
+		if len(options) > 0 {
+			o := options[t.Draw(len(options))]
+			stream = append(append([]*wire.MsgTx(nil), base...), base[o[1]:]...)
+			announced = uint64(len(stream))
+			steps = len(stream) + 2
+			if o[0] > 1 {
+				kind = "duplicate-subtree"
+				c.Fault("block:duplicate-subtree")
+			}
+		}
 	}
 	c.Event("block txs=%d relevant-mode=%d fault=%s announced=%d stream=%d cut=%d interrupt=%s@%d", n, relMode, kind, announced, len(stream), cutAt, interruptKind, interruptAt)
 
@@ -407,11 +432,11 @@ func errShortP(err error) string {
 func init() {
 	core.Register(&core.Property{
 		ID: "C04", Engine: "G", Level: "exploration", Bubble: true,
-		Rule: "each run: a real BlockDownloader (Run on its own goroutine, HandleBlock on the source's goroutine) receives a block of 1-125 (thorough: up to 3200) transactions with a tape-chosen relevant subset through the transaction channel, with one tape-chosen corruption (dropped / added / duplicated-last / swapped / altered transaction, announced count +-1, stream cut at k, different header or requested hash, processor or store error at call k) and optionally Cancel, Stop or interrupt at a tape-chosen step of the hand-over; the recorded processor/store calls are checked against a reference (header hash, count, independent merkle root, relevant set in block order, independent merkle paths); non-trivial = every run; distinct = distinct hash of the canonical event log",
+		Rule: "each run: a real BlockDownloader (Run on its own goroutine, HandleBlock on the source's goroutine) receives a block of 1-125 (thorough: up to 3200) transactions with a tape-chosen relevant subset through the transaction channel, with one tape-chosen corruption (dropped / added / duplicated-last or duplicated-subtree (merkle malleation) / swapped / altered transaction, announced count +-1, stream cut at k, different header or requested hash, processor or store error at call k) and optionally Cancel, Stop or interrupt at a tape-chosen step of the hand-over; the recorded processor/store calls are checked against a reference (header hash, count, independent merkle root, relevant set in block order, independent merkle paths); non-trivial = every run; distinct = distinct hash of the canonical event log",
 		Real: blockReal, Stub: blockStub,
-		Assumptions: []string{"the source hands transactions over one at a time at driver-chosen steps; goroutine order between two quiescent points is the Go runtime's; all oracles are order independent"},
-		FaultKinds: []string{"block:drop-tx", "block:add-tx", "block:duplicate-last", "block:swap-txs", "block:alter-tx", "block:announced+1", "block:announced-1", "block:stream-cut", "block:different-header", "block:error:ProcessTx", "block:error:ProcessCoinbaseTx", "block:error:ConfirmTx", "block:error:AppendBlockTxIDs", "download:cancel", "download:stop", "download:interrupt"},
-		ProbeNames: []string{"block-verified", "confirmations-issued"},
+		Assumptions:  []string{"the source hands transactions over one at a time at driver-chosen steps; goroutine order between two quiescent points is the Go runtime's; all oracles are order independent"},
+		FaultKinds:   []string{"block:drop-tx", "block:add-tx", "block:duplicate-last", "block:duplicate-subtree", "block:swap-txs", "block:alter-tx", "block:announced+1", "block:announced-1", "block:stream-cut", "block:different-header", "block:error:ProcessTx", "block:error:ProcessCoinbaseTx", "block:error:ConfirmTx", "block:error:AppendBlockTxIDs", "download:cancel", "download:stop", "download:interrupt"},
+		ProbeNames:   []string{"block-verified", "confirmations-issued"},
 		Run:          runC04,
 		QuickSeconds: 20, ThoroughSeconds: 600, MinRuns: 300, BatchSize: 50, RunTimeoutSeconds: 240,
 	})
